@@ -384,6 +384,7 @@ func checkC16(c *Ctx) error {
 	c.Coverage["native_cli_cases"] = nrun
 	c.Coverage["traces_validated_against_impl"] = nrun
 	engineCoverage(c, k.E, "")
+	c.Coverage["bounds"] = map[string]any{"agents": len(infos), "paths": "HOME, cwd, --path and environment variables are symbolic strings (clean absolute / relative paths)", "base_states": "absent, directory, file, unreadable, previous installation x3", "umask": "022/027/077", "outside": "symlinks, ~ expansion by the shell, concurrent installers"}
 	c.Coverage["explanation"] = fmt.Sprintf("Symbolic execution of the real Install/ResolvePath/ValidatePath and the agents' methods for all %d registered agents with --path, $HOME and the working directory as symbolic strings (solver strings), --user and the state of the base (absent/directory/file/unreadable) enumerated: %d paths, %d mutating filesystem events; every event path is proved (str.prefixof query, unsat required) to lie under <expected base>/<skill>, the expected base computed from the README table parsed at check time; installed tree compared with the on-disk skill tree; registry, kong sub-commands (struct tags + type arguments) and README agent list compared as sets.", len(infos), paths, mutEvents)
 	c.Coverage["obligations"] = oblig
 	c.Coverage["evaluations"] = paths
